@@ -97,6 +97,19 @@ _add("C12",
      "Trusted: the snapshot hook reads the manager's private fields at the end of each handled command (quiescent by construction: the manager is a single task). Only the over-count direction is judged (a stale reservation), as the property states.",
      assumptions=SIM_ASSUMPTIONS)
 
+_add("C01",
+     "disk oracle taken synchronously inside the event sink at every ownership-related event (piece counted as owned, Have/Bitfield/Piece written, peer killed) + manager-state monitor after hash failures + output comparison, in the simulation with corrupting peers",
+     "seeded scenarios: 1..12 pieces, one honest seeder plus 1..3 hostile peers (corruptor biased to corrupt the completing block: bit flips, wrong offset/index/length, duplicates, unrequested/overlapping blocks; flapper; disconnector incl. mid-frame) and usually a downloader that requests what the client owns; failpoints in half of the runs. Monitors: every *.piece file ever seen hashes to its name and is a piece of the torrent; whenever a piece becomes owned or is claimed on the wire (Have, Bitfield bit, Piece data) a verified file for it is on disk at that very moment; after a hash failure the peer is dropped and the piece is Missing or held by a live unchoking peer; extracted output equals the original. Distinct non-trivial = distinct manager interleaving signatures.",
+     "Exploration: 2e3 (quick) / 5e4 (thorough) hostile scenarios; the evidence counts hash failures, ownership transitions and on-wire ownership claims that were actually checked against the disk.",
+     "Trusted: scan of the client's directory from inside the sink (a file that looks invalid is re-read until stable, so a concurrent fs::write on the blocking pool is not mistaken for a bad file).",
+     assumptions=SIM_ASSUMPTIONS)
+_add("C11",
+     "wire oracle against the manager log: bitfield vs. owned set at the connection's handshake event, Have frames vs. the manager's announcement sequence since the handler was spawned, disk oracle at write time, completeness at a quiescent end",
+     "seeded scenarios: 1..2 seeders feeding up to 28 completions spread over virtual time while 1..3 observer connections (incoming or dialled, connecting at random moments) choke/unchoke the client on random schedules, many staying choked across many completions before unchoking; failpoints in half of the runs; completions stay below the broadcast capacity (32). Per connection: Bitfield == owned set in the snapshot of its Init event; Have frames are, in order, a prefix of the announcements made since its handler was spawned; each named piece has a verified file when written; if the peer's last choke-state message is Unchoke and the run ended quiescent, all announcements were delivered. Distinct non-trivial = distinct (interleaving signature, scenario) pairs.",
+     "Exploration: 2e3 (quick) / 5e4 (thorough) scenarios; evidence counts bitfields, Have frames, deferred-Have connections and completeness checks actually performed.",
+     "Trusted: spawn time of a handler = manager event after which the peer first appears in the manager's table. A receiver that lags more than 32 announcements (a peer that stops reading) is outside the stated quantifier and not generated.",
+     assumptions=SIM_ASSUMPTIONS)
+
 NOT_APPLICABLE = []
 
 HOOK_COMMITS = ['f4e11fff6207578681bfe159fde132435a75db6b', 'c80cd8e781736d9cf047ae63c4117d911e79b492', '36e923c803e32367e0b9567db19ed45c7e679e57', 'd4d0caac768fbc161be45a56b818f54b8f8544b7', '18ace6ea4c44e4f9b55cbb2adc1f6155c1036680']
